@@ -108,7 +108,18 @@ let run (path : String.t) (only : String.t) =
             | None -> (corr := false; note "probed topic never opened"))
          | ["oversize"; "->"; res] -> if res <> "ok" then (prop := false; tag "c11"; tag "c08"; note ("a bound replier was harmed by another peer's request that is too large only once tagged: " ^ res))
          | ["iso"; "->"; res] -> if res <> "ok" then (prop := false; tag "c07"; tag "c01"; note ("distinct topic names share traffic: " ^ res))
-         | ["race"; "->"; res] -> if res <> "ok" then (prop := false; tag "c11"; note ("registrations of both messaging patterns racing for a fresh topic: " ^ res))
+         | ["bigopen"; kind; size; "->"; reply] ->
+           if reply <> "err:4" then (prop := false; tag "c11"; tag "c07";
+             note (Printf.sprintf "a %s registration with an invalid name in a frame of %s payload bytes was answered %s instead of the invalid-topic error" kind size reply))
+         | ["race"; "->"; res] ->
+           if res <> "ok" then begin
+             prop := false; tag "c11";
+             (* an acknowledged subscriber that gets nothing is also a pub/sub fan-out failure *)
+             (try ignore (Str.search_forward (Str.regexp_string "received_") res 0); tag "c01" with Not_found -> ());
+             (* ... and so is a subscriber that was acknowledged and then dropped: it will receive nothing *)
+             (try ignore (Str.search_forward (Str.regexp_string "regsub_registration_was_acknowledged_and_then_abandoned") res 0); tag "c01" with Not_found -> ());
+             note ("registrations racing for a fresh topic: " ^ res)
+           end
          | ["alive"; "->"; res] -> alive := true; if res <> "ok" then (prop := false; note ("server no longer serves a fresh topic: " ^ res))
          | "harness_error" :: _ -> prop := false; note lines.(!i)
          | ["end"] -> ended := true
